@@ -39,9 +39,34 @@ def _ladders(kmax):
             yield c
 
 
+def _many_stems(tier):
+    """More than ten stems (two-digit region and variable indices): h hairpins of stem length 1-2 before, between or after the stems of a small
+    knot (H-type with unequal stems, kissing hairpins, three mutually crossing stems). Built as chord diagrams: each hairpin is an arc (e, e+1)."""
+    knots = {"H": [(0, 2), (1, 3)], "kissing": [(0, 2), (1, 4), (3, 5)], "triangle": [(0, 3), (1, 4), (2, 5)]}
+    for h in ((9, 10, 12) if tier == "quick" else (8, 9, 10, 11, 12, 14, 18)):
+        for name, karcs in knots.items():
+            for where in ("before", "after", "inside"):
+                K = h + len(karcs)
+                npts = 2 * len(karcs)
+                if where == "before":
+                    arcs = [(2 * i, 2 * i + 1) for i in range(h)] + [(2 * h + a, 2 * h + b) for a, b in karcs]
+                elif where == "after":
+                    arcs = list(karcs) + [(npts + 2 * i, npts + 2 * i + 1) for i in range(h)]
+                else:
+                    # hairpins between the first and the second endpoint of the knot
+                    arcs = [(0 if a == 0 else a + 2 * h, b + 2 * h) for a, b in karcs] + [(1 + 2 * i, 2 + 2 * i) for i in range(h)]
+                arcs = sorted(arcs)
+                for pat in range(2):
+                    lengths = [1 + ((i + pat) % 2) for i in range(K)]
+                    c = enum2d.chord_structure(tuple(arcs), lengths, [1] * (2 * K + 1))
+                    c["many"] = "%s+%d hairpins %s" % (name, h, where)
+                    yield c
+
+
 def families(tier):
     q = tier == "quick"
     fams = [
+        ("many-stems", lambda: _many_stems(tier), 1),
         ("M", lambda: enum2d.M(10 if q else 12), 1),
         ("D", lambda: enum2d.D(4, lens=(1, 2, 3)), 1),
         ("Lad", lambda: _ladders(8 if q else 12), 1),
